@@ -1,4 +1,4 @@
-// GENERATED on every run by vlib/extract.py from /tmp/seedcheck-32666 -- do not edit
+// GENERATED on every run by vlib/extract.py from /tmp/rp -- do not edit
 #![allow(unused_imports, unused_variables, unused_mut, dead_code, unused_parens, unused_braces, non_snake_case)]
 use vstd::prelude::*;
 use core::cmp::Ordering;
@@ -297,7 +297,7 @@ pub struct QualifierKey(pub SmallString);
 pub struct Qualifiers {
     pub qualifiers: Vec<(QualifierKey, SmallString)>,
 }
-// ---- unit T.PurlParts  <= purl/src/lib.rs:213 ----
+// ---- unit T.PurlParts  <= purl/src/lib.rs:212 ----
 pub struct PurlParts {
     pub namespace: SmallString,
     pub name: SmallString,
@@ -520,7 +520,7 @@ pub trait PurlShape: Sized {
             // proved to preserve the representation invariant (group `qual`); assumed for user-written hooks
             wf_seq(old(parts).qualifiers.qualifiers@) ==> wf_seq(final(parts).qualifiers.qualifiers@);
 }
-// ---- unit U-vtype.is_valid_package_type  <= purl/src/lib.rs:381 ----
+// ---- unit U-vtype.is_valid_package_type  <= purl/src/lib.rs:380 ----
 exec const ALLOWED_SPECIAL_CHARS: &'static [char] ensures ALLOWED_SPECIAL_CHARS@ =~= seq!['.', '+', '-'] { &['.', '+', '-'] }
 pub fn is_valid_package_type(package_type: &str) -> (r: bool)
     ensures r == valid_type(package_type@)
@@ -545,7 +545,7 @@ pub fn str_preview_mut(s: &mut str) -> (r: Result<(), ParseError>)
         valid_type(old(s)@) ==> r is Ok && final(s)@ == lower_ascii_seq(old(s)@),
         !valid_type(old(s)@) ==> r == Err::<(), ParseError>(ParseError::InvalidPackageType),
 {
-    if !s.bytes().all(|b| b.is_ascii_lowercase()) && !is_valid_package_type(s) {
+    if !is_valid_package_type(s) {
         return Err(ParseError::InvalidPackageType);
     }
     x_make_ascii_lowercase(s);
